@@ -167,6 +167,8 @@ func Run(outDir string, seed int64, tier string) error {
 				pw.Add(1)
 				go func() {
 					defer pw.Done()
+					tp := time.Now()
+					defer func() { w.note("part %s took %.1fs", name, time.Since(tp).Seconds()) }()
 					if err := f(); err != nil {
 						mu.Lock()
 						if fatal {
@@ -182,7 +184,7 @@ func Run(outDir string, seed int64, tier string) error {
 			part("handlers", true, func() error { return w.handlerPart(4) })
 			part("dkg", false, func() error { return w.dkgPart(tmp, tier == "thorough" || id == crypto.DefaultSchemeID) })
 			pw.Wait()
-			w.cap.add("log/debug", w.sink.bytes())
+			w.cap.add("log/debug", w.sink.Bytes())
 		}(i, id)
 	}
 	wg.Wait()
